@@ -37,6 +37,11 @@ def ang_diff(a, b):
 def gen_galaxy(r):
     ny, nx = r.randint(110, 140), r.randint(110, 140)
     x0, y0 = nx / 2 + r.uniform(-8, 8), ny / 2 + r.uniform(-8, 8)
+    if r.random() < 0.5:
+        # clearly non-square frame with the galaxy in the far part of the long axis (row / column mix-ups show there)
+        short, long_ = r.randint(104, 112), r.randint(165, 185)
+        far, mid = long_ - 56 + r.uniform(-4, 4), short / 2 + r.uniform(-3, 3)
+        (ny, nx, x0, y0) = (short, long_, far, mid) if r.random() < 0.5 else (long_, short, mid, far)
     eps = r.uniform(0.05, 0.8) if r.random() < 0.8 else r.choice([0.05, 0.8, 0.5])
     pa = r.uniform(0, math.pi)
     law = r.choice(['exp', 'gauss', 'sersic2', 'sersic3.5', 'exp'])
@@ -202,8 +207,11 @@ def growth_correspondence(rep, r, n):
         sma0 = r.choice([8.0, 10.0, 12.5])
         lin = r.random() < 0.4
         step = r.choice([1.5, 2.0, 2.5]) if lin else r.choice([0.1, 0.125, 0.25])
+        # boundary values (next sma exactly equal to a limit) only where the float arithmetic of the growth is exact (dyadic step),
+        # otherwise the comparison `sma >= maxsma` is decided by rounding
+        exact = lin or step in (0.125, 0.25)
         minsma = r.choice([0.0, 1.0, 2.5, sma0 / (1 + step) + 0.01 if not lin else sma0 - step + 0.01, sma0])
-        maxsma = r.choice([20.0, 25.0, sma0 * (1 + step) if not lin else sma0 + step])
+        maxsma = r.choice([20.0, 25.0, (sma0 * (1 + step) if not lin else sma0 + step) if exact else 22.0])
         kw = dict(sma0=sma0, minsma=minsma, maxsma=maxsma, step=step, linear=lin)
         iso, _ = fit(gal, img, kw)
         if len(iso) == 0 or any(c not in (0, 2) for c in iso.stop_code):
